@@ -1,0 +1,7 @@
+//go:build !verif
+
+package sync
+
+import "bytes"
+
+func verifOnPut(*bytes.Buffer) {}
